@@ -1,9 +1,781 @@
 package main
 
-import "strings"
+// Replay: read the solver's model of a failed obligation back as Go values and run the
+// real function on them (in-package test injected with `go test -overlay`).
 
-// tryReplay turns the solver's model of a failed obligation into a Go test that is run
-// against the real code. Filled in per obligation kind.
+import (
+	"bytes"
+	"context"
+	"encoding/json"
+	"fmt"
+	"go/types"
+	"os"
+	"os/exec"
+	"path/filepath"
+	"sort"
+	"strconv"
+	"strings"
+	"time"
+
+	"golang.org/x/tools/go/ssa"
+)
+
+// ---- s-expressions ---------------------------------------------------------
+
+type sx struct {
+	atom string
+	list []*sx
+	str  bool
+}
+
+func parseSx(s string) []*sx {
+	pos := 0
+	var parse func() *sx
+	skip := func() {
+		for pos < len(s) && (s[pos] == ' ' || s[pos] == '\n' || s[pos] == '\t' || s[pos] == '\r') {
+			pos++
+		}
+	}
+	parse = func() *sx {
+		skip()
+		if pos >= len(s) {
+			return nil
+		}
+		switch s[pos] {
+		case '(':
+			pos++
+			n := &sx{list: []*sx{}}
+			for {
+				skip()
+				if pos >= len(s) {
+					return n
+				}
+				if s[pos] == ')' {
+					pos++
+					return n
+				}
+				c := parse()
+				if c == nil {
+					return n
+				}
+				n.list = append(n.list, c)
+			}
+		case '"':
+			pos++
+			var b strings.Builder
+			for pos < len(s) {
+				if s[pos] == '"' {
+					if pos+1 < len(s) && s[pos+1] == '"' {
+						b.WriteByte('"')
+						pos += 2
+						continue
+					}
+					pos++
+					break
+				}
+				b.WriteByte(s[pos])
+				pos++
+			}
+			return &sx{atom: b.String(), str: true}
+		default:
+			st := pos
+			for pos < len(s) && !strings.ContainsRune(" \n\t\r()", rune(s[pos])) {
+				pos++
+			}
+			return &sx{atom: s[st:pos]}
+		}
+	}
+	var out []*sx
+	for {
+		n := parse()
+		if n == nil {
+			break
+		}
+		out = append(out, n)
+	}
+	return out
+}
+
+func (n *sx) String() string {
+	if n.list == nil {
+		if n.str {
+			return `"` + strings.ReplaceAll(n.atom, `"`, `""`) + `"`
+		}
+		return n.atom
+	}
+	parts := make([]string, len(n.list))
+	for i, c := range n.list {
+		parts[i] = c.String()
+	}
+	return "(" + strings.Join(parts, " ") + ")"
+}
+
+func (n *sx) head() string {
+	if n.list != nil && len(n.list) > 0 {
+		return n.list[0].atom
+	}
+	return n.atom
+}
+
+func (n *sx) intVal() (int64, bool) {
+	if n.list == nil {
+		v, err := strconv.ParseInt(n.atom, 10, 64)
+		return v, err == nil
+	}
+	if len(n.list) == 2 && n.list[0].atom == "-" {
+		v, ok := n.list[1].intVal()
+		return -v, ok
+	}
+	return 0, false
+}
+
+// smtStringToGo decodes \u{..} escapes of an SMT string literal body into bytes.
+func smtStringToGo(s string) string {
+	var b []byte
+	for i := 0; i < len(s); i++ {
+		if s[i] == '\\' && i+2 < len(s) && s[i+1] == 'u' && s[i+2] == '{' {
+			j := strings.IndexByte(s[i:], '}')
+			if j > 0 {
+				v, err := strconv.ParseUint(s[i+3:i+j], 16, 32)
+				if err == nil {
+					if v < 256 {
+						b = append(b, byte(v))
+					} else {
+						b = append(b, []byte(string(rune(v)))...)
+					}
+					i += j
+					continue
+				}
+			}
+		}
+		if s[i] == '\\' && i+1 < len(s) && s[i+1] == 'x' && i+3 < len(s) {
+			v, err := strconv.ParseUint(s[i+2:i+4], 16, 8)
+			if err == nil {
+				b = append(b, byte(v))
+				i += 3
+				continue
+			}
+		}
+		b = append(b, s[i])
+	}
+	return string(b)
+}
+
+// ---- model evaluation ------------------------------------------------------
+
+type modelEval struct {
+	c       *CheckCtx
+	tr      *Tr
+	base    string // prelude + negated obligation + size hints
+	fixed   []string
+	cache   map[Term]*sx
+	sortHint map[Term]string
+	queries int
+	failed  bool
+}
+
+// eval asks the solver for the values of the given terms under the current model constraints.
+func (m *modelEval) eval(terms []Term) bool {
+	var need []Term
+	seen := map[Term]bool{}
+	for _, t := range terms {
+		if _, ok := m.cache[t]; !ok && !seen[t] {
+			need = append(need, t)
+			seen[t] = true
+		}
+	}
+	if len(need) == 0 {
+		return true
+	}
+	q := m.base
+	for _, f := range m.fixed {
+		q += "(assert " + f + ")\n"
+	}
+	qHinted := q
+	for _, h := range m.tr.firstIterHints {
+		qHinted += "(assert " + h + ")\n"
+	}
+	for _, t := range need {
+		switch m.sortHint[t] {
+		case "Val":
+			qHinted += "(assert (valSmall " + t + "))\n"
+		case "Slice":
+			qHinted += "(assert (sliceSmall " + t + "))\n"
+		}
+	}
+	cfg := *m.c.cfg
+	cfg.Race = false
+	if cfg.TimeoutMs > 15000 {
+		cfg.TimeoutMs = 15000
+	}
+	m.queries++
+	tail := "(check-sat)\n(get-value (" + strings.Join(need, " ") + "))\n"
+	var r solveResult
+	for _, qq := range []string{qHinted, q} {
+		for _, s := range []string{"z3-new", "z3", "cvc5"} {
+			r = runSolver(s, qq+tail, &cfg, true, fmt.Sprintf("model%d", m.queries))
+			if r.status == "sat" {
+				break
+			}
+		}
+		if r.status == "sat" || qq == q {
+			break
+		}
+	}
+	if r.status != "sat" {
+		m.failed = true
+		return false
+	}
+	parsed := parseSx(r.model)
+	if len(parsed) == 0 || parsed[0].list == nil {
+		m.failed = true
+		return false
+	}
+	pairs := parsed[0].list
+	for i, p := range pairs {
+		if p.list == nil || len(p.list) != 2 || i >= len(need) {
+			continue
+		}
+		m.cache[need[i]] = p.list[1]
+		// pin the value so later rounds stay in the same model
+		m.fixed = append(m.fixed, fmt.Sprintf("(= %s %s)", need[i], p.list[1].String()))
+	}
+	return true
+}
+
+func (m *modelEval) get(t Term) *sx {
+	if v, ok := m.cache[t]; ok {
+		return v
+	}
+	m.eval([]Term{t})
+	return m.cache[t]
+}
+
+// ---- Go value construction -------------------------------------------------
+
+type goBuilder struct {
+	m       *modelEval
+	tr      *Tr
+	pkg     *types.Package // package of the test
+	imports map[string]string
+	stmts   []string
+	arrays  map[string]string // "comp/arrid" -> var name
+	maps    map[string]string
+	ptrs    map[string]string
+	assigned map[string]bool
+	depth   int
+	notes   []string
+	n       int
+}
+
+func (g *goBuilder) qual(p *types.Package) string {
+	if p == nil || p == g.pkg {
+		return ""
+	}
+	g.imports[p.Path()] = p.Name()
+	return p.Name()
+}
+
+func (g *goBuilder) typeName(t types.Type) string { return types.TypeString(t, g.qual) }
+
+func (g *goBuilder) fresh(prefix string) string {
+	g.n++
+	return fmt.Sprintf("%s%d", prefix, g.n)
+}
+
+// valueOf builds a Go expression for model value v of Go type t.
+func (g *goBuilder) valueOf(v *sx, t types.Type, depth int) string {
+	if v == nil {
+		return g.zeroOf(t)
+	}
+	sorts := g.tr.eng.sorts
+	switch u := t.Underlying().(type) {
+	case *types.Basic:
+		switch {
+		case u.Info()&types.IsBoolean != 0:
+			return v.atom
+		case u.Info()&types.IsString != 0:
+			return strconv.Quote(smtStringToGo(v.atom))
+		case u.Info()&types.IsInteger != 0:
+			n, _ := v.intVal()
+			if n > 1<<40 || n < -(1<<40) {
+				n = n % 1000
+			}
+			return fmt.Sprintf("%s(%d)", g.typeName(t), n)
+		default:
+			return g.zeroOf(t)
+		}
+	case *types.Interface:
+		h := v.head()
+		if h == "VNil" {
+			return "nil"
+		}
+		if h == "VOther" {
+			// a foreign dynamic type: errors are the only ones that matter
+			if types.Implements(types.Universe.Lookup("error").Type(), u) || u.NumMethods() == 0 {
+				if len(v.list) == 3 {
+					code, _ := v.list[1].intVal()
+					if int(code) == sorts.otherCodes["goerror"] || int(code) == sorts.otherCodes["runtime.Error"] {
+						g.imports["errors"] = "errors"
+						return `errors.New("replay-error")`
+					}
+				}
+			}
+			if u.NumMethods() == 0 {
+				return "struct{ Opaque int }{1}"
+			}
+			return "nil"
+		}
+		for _, k := range sorts.ctorOrd {
+			c := sorts.ctors[k]
+			if c.ctor == h && len(v.list) == 2 {
+				if isContext(t) {
+					break
+				}
+				return g.convertTo(t, g.valueOf(v.list[1], c.gotype, depth), c.gotype)
+			}
+		}
+		if isContext(t) {
+			g.imports["context"] = "context"
+			return "context.Background()"
+		}
+		if typeStr(t) == "types.EnvType" {
+			g.imports[modulePath+"/env"] = "env"
+			return "env.NewEnv()"
+		}
+		return "nil"
+	case *types.Slice:
+		return g.sliceOf(v, u, t, depth)
+	case *types.Map:
+		return g.mapOf(v, u, t, depth)
+	case *types.Pointer:
+		n, _ := v.intVal()
+		if n == 0 {
+			return "nil"
+		}
+		if typeStr(t) == "*env.Env" {
+			g.imports[modulePath+"/env"] = "env"
+			return "env.NewEnv().(*env.Env)"
+		}
+		if depth > 3 {
+			return "nil"
+		}
+		key := typeKey(u.Elem()) + "/" + fmt.Sprint(n)
+		if name, ok := g.ptrs[key]; ok {
+			return name
+		}
+		name := g.fresh("ptr")
+		g.ptrs[key] = name
+		if !exportedOrLocal(u.Elem(), g.pkg) {
+			return "nil"
+		}
+		if _, isStruct := u.Elem().Underlying().(*types.Struct); isStruct && inModule(u.Elem()) {
+			comp := g.tr.cellComp(u.Elem())
+			cell := g.m.get(g.initRead(comp, IntLit(n)))
+			g.stmts = append(g.stmts, fmt.Sprintf("%s := new(%s)", name, g.typeName(u.Elem())))
+			if cell != nil {
+				g.stmts = append(g.stmts, fmt.Sprintf("*%s = %s", name, g.valueOf(cell, u.Elem(), depth+1)))
+			}
+		} else {
+			g.stmts = append(g.stmts, fmt.Sprintf("%s := new(%s)", name, g.typeName(u.Elem())))
+		}
+		return name
+	case *types.Struct:
+		si := sorts.structOf(t)
+		if si == nil || v.list == nil || len(v.list) != len(si.fields)+1 {
+			return g.zeroOf(t)
+		}
+		if !exportedOrLocal(t, g.pkg) {
+			return g.zeroOf(t)
+		}
+		var fs []string
+		for i := 0; i < u.NumFields(); i++ {
+			f := u.Field(i)
+			if !f.Exported() && (f.Pkg() != g.pkg) {
+				continue
+			}
+			if _, isSig := f.Type().Underlying().(*types.Signature); isSig {
+				continue
+			}
+			if f.Name() == "Cursor" || f.Name() == "Meta" {
+				continue
+			}
+			fs = append(fs, fmt.Sprintf("%s: %s", f.Name(), g.valueOf(v.list[i+1], f.Type(), depth+1)))
+		}
+		return fmt.Sprintf("%s{%s}", g.typeName(t), strings.Join(fs, ", "))
+	case *types.Signature:
+		return "nil"
+	}
+	return g.zeroOf(t)
+}
+
+func exportedOrLocal(t types.Type, pkg *types.Package) bool {
+	if n, ok := t.(*types.Named); ok {
+		return n.Obj().Exported() || n.Obj().Pkg() == pkg
+	}
+	return true
+}
+
+func isContext(t types.Type) bool { return typeStr(t) == "context.Context" }
+
+func (g *goBuilder) convertTo(target types.Type, expr string, from types.Type) string {
+	return expr
+}
+
+func (g *goBuilder) zeroOf(t types.Type) string {
+	switch u := t.Underlying().(type) {
+	case *types.Basic:
+		switch {
+		case u.Info()&types.IsBoolean != 0:
+			return "false"
+		case u.Info()&types.IsString != 0:
+			return `""`
+		case u.Info()&types.IsNumeric != 0:
+			return g.typeName(t) + "(0)"
+		}
+	case *types.Struct:
+		if exportedOrLocal(t, g.pkg) {
+			return g.typeName(t) + "{}"
+		}
+	}
+	if isContext(t) {
+		g.imports["context"] = "context"
+		return "context.Background()"
+	}
+	return "nil"
+}
+
+func (g *goBuilder) initRead(c *Component, key ...Term) Term {
+	h := g.tr.initHeap[c.name]
+	if h == nil {
+		return ""
+	}
+	return app(h.fname, key...)
+}
+
+func (g *goBuilder) sliceOf(v *sx, u *types.Slice, t types.Type, depth int) string {
+	if v.list == nil || len(v.list) != 5 {
+		return "nil"
+	}
+	arr, _ := v.list[1].intVal()
+	off, _ := v.list[2].intVal()
+	ln, _ := v.list[3].intVal()
+	cp, _ := v.list[4].intVal()
+	if arr == 0 {
+		return fmt.Sprintf("%s(nil)", g.typeName(t))
+	}
+	if off < 0 || ln < 0 || cp < ln || off+cp > 64 {
+		g.notes = append(g.notes, fmt.Sprintf("slice header too large for replay: off=%d len=%d cap=%d", off, ln, cp))
+		if off+cp > 64 {
+			cp = ln
+			if off+cp > 64 {
+				return fmt.Sprintf("%s(nil)", g.typeName(t))
+			}
+		}
+	}
+	comp := g.tr.elemComp(u.Elem())
+	key := comp.name + "/" + fmt.Sprint(arr)
+	name, ok := g.arrays[key]
+	if !ok {
+		name = g.fresh("arr")
+		g.arrays[key] = name
+		g.stmts = append(g.stmts, fmt.Sprintf("%s := make(%s, %d)", name, g.typeName(t), 64))
+		if isInterface(u.Elem()) {
+			// cells outside every visible window hold recognisable sentinels, so that a write
+			// into spare capacity is observable
+			g.imports["fmt"] = "fmt"
+			g.stmts = append(g.stmts, fmt.Sprintf("for i := range %s { %s[i] = fmt.Sprintf(\"sentinel-%%d\", i) }", name, name))
+		}
+	}
+	if depth <= 3 && g.initRead(comp, "0", "0") != "" {
+		var terms []Term
+		hi := off + ln
+		if hi > off+6 {
+			hi = off + 6
+		}
+		for i := off; i < hi; i++ {
+			rt := g.initRead(comp, IntLit(arr), IntLit(i))
+			terms = append(terms, rt)
+			g.m.sortHint[rt] = comp.valSort
+		}
+		g.m.eval(terms)
+		for i := off; i < hi; i++ {
+			cellKey := fmt.Sprintf("%s[%d]", name, i)
+			if g.assigned[cellKey] {
+				continue
+			}
+			g.assigned[cellKey] = true
+			ev := g.m.cache[g.initRead(comp, IntLit(arr), IntLit(i))]
+			if ev != nil {
+				g.stmts = append(g.stmts, fmt.Sprintf("%s = %s", cellKey, g.valueOf(ev, u.Elem(), depth+1)))
+			}
+		}
+	}
+	return fmt.Sprintf("%s[%d:%d:%d]", name, off, off+ln, off+cp)
+}
+
+func (g *goBuilder) mapOf(v *sx, u *types.Map, t types.Type, depth int) string {
+	id, _ := v.intVal()
+	if id == 0 {
+		return fmt.Sprintf("%s(nil)", g.typeName(t))
+	}
+	dom, val, _ := g.tr.mapComps(u)
+	key := dom.name + "/" + fmt.Sprint(id)
+	if name, ok := g.maps[key]; ok {
+		return name
+	}
+	name := g.fresh("m")
+	g.maps[key] = name
+	g.stmts = append(g.stmts, fmt.Sprintf("%s := %s{}", name, g.typeName(t)))
+	// candidate keys: every key term that the VC reads in this component
+	h := g.tr.initHeap[dom.name]
+	if h == nil || depth > 3 {
+		return name
+	}
+	var keyTerms []Term
+	for mk := range h.memo {
+		parts := strings.Split(mk, "\x00")
+		if len(parts) == 2 && !strings.HasPrefix(parts[1], "q_") {
+			keyTerms = append(keyTerms, parts[0], parts[1])
+		}
+	}
+	sort.Strings(keyTerms)
+	g.m.eval(keyTerms)
+	seen := map[string]bool{}
+	for mk := range h.memo {
+		parts := strings.Split(mk, "\x00")
+		if len(parts) != 2 || strings.HasPrefix(parts[1], "q_") {
+			continue
+		}
+		mv, kv := g.m.cache[parts[0]], g.m.cache[parts[1]]
+		if mv == nil || kv == nil {
+			continue
+		}
+		if n, _ := mv.intVal(); n != id {
+			continue
+		}
+		ks := kv.String()
+		if seen[ks] {
+			continue
+		}
+		seen[ks] = true
+		in := g.m.get(app(h.fname, IntLit(id), ks))
+		if in == nil || in.atom != "true" {
+			continue
+		}
+		var valExpr string
+		if hv := g.tr.initHeap[val.name]; hv != nil {
+			valExpr = g.valueOf(g.m.get(app(hv.fname, IntLit(id), ks)), u.Elem(), depth+1)
+		} else {
+			valExpr = g.zeroOf(u.Elem())
+		}
+		g.stmts = append(g.stmts, fmt.Sprintf("%s[%s] = %s", name, g.valueOf(kv, u.Key(), depth+1), valExpr))
+	}
+	return name
+}
+
+// ---- driver ----------------------------------------------------------------
+
 func (c *CheckCtx) tryReplay(f *Failure, b *strings.Builder) {
 	f.Confirm = "no-model"
+	o, tr := f.Obl, f.Tr
+	if o.Result != "sat" && os.Getenv("GOVC_REPLAY_UNKNOWN") == "" {
+		fmt.Fprintf(b, "replay: the solvers returned %s: no model to replay\n", o.Result)
+		return
+	}
+	root := tr.root
+	if root.Parent() != nil {
+		fmt.Fprintf(b, "replay: %s is a closure; no direct call harness\n", fnName(root))
+		return
+	}
+	kind := o.Kind
+	oracle := ""
+	switch {
+	case strings.HasPrefix(kind, "nopanic/"):
+		oracle = "nopanic"
+	case kind == "frame/store":
+		oracle = "frame"
+	default:
+		if c.prop.ReplayOracle != nil {
+			oracle = c.prop.ReplayOracle(o)
+		}
+	}
+	if oracle == "" {
+		fmt.Fprintf(b, "replay: no run-time oracle for obligation kind %s\n", kind)
+		return
+	}
+	base := tr.prelude(true) + fmt.Sprintf("(assert (and %s (not %s)))\n", o.Guard, o.Goal)
+	// prefer small models
+	var hints []string
+	for i, p := range root.Params {
+		x := tr.rootAct.args[i]
+		switch p.Type().Underlying().(type) {
+		case *types.Slice:
+			hints = append(hints, fmt.Sprintf("(<= (s_len %s) 3)", x), fmt.Sprintf("(<= (s_cap %s) 4)", x), fmt.Sprintf("(<= (s_off %s) 2)", x), fmt.Sprintf("(<= (s_arr %s) 20)", x))
+		case *types.Basic:
+			if a := tr.rootAct.sortOf(p.Type()); a == "Int" {
+				hints = append(hints, fmt.Sprintf("(<= (- 3) %s 6)", x))
+			}
+		}
+	}
+	hints = append(hints, fmt.Sprintf("(<= %s 40)", tr.alloc0))
+	m := &modelEval{c: c, tr: tr, cache: map[Term]*sx{}, sortHint: map[Term]string{}}
+	for i, p := range root.Params {
+		m.sortHint[tr.rootAct.args[i]] = tr.rootAct.sortOf(p.Type())
+	}
+	tryBase := base
+	for _, h := range hints {
+		tryBase += "(assert " + h + ")\n"
+	}
+	m.base = tryBase
+	if !m.eval(tr.rootAct.args) {
+		m = &modelEval{c: c, tr: tr, cache: map[Term]*sx{}, base: base, sortHint: map[Term]string{}}
+		if !m.eval(tr.rootAct.args) {
+			fmt.Fprintf(b, "replay: could not obtain a model with get-value\n")
+			return
+		}
+	}
+	pkg := c.eng.pkgOf(root)
+	if pkg == nil {
+		return
+	}
+	for attempt := 0; attempt < 1; attempt++ {
+		g := &goBuilder{m: m, tr: tr, pkg: pkg.Types, imports: map[string]string{"testing": "testing"}, arrays: map[string]string{}, maps: map[string]string{}, ptrs: map[string]string{}, assigned: map[string]bool{}}
+		var argExprs []string
+		for i, p := range root.Params {
+			argExprs = append(argExprs, g.valueOf(m.cache[tr.rootAct.args[i]], p.Type(), 0))
+		}
+		src := g.testSource(root, argExprs, oracle, o)
+		fmt.Fprintf(b, "\n--- model read back as Go (arguments of %s) ---\n", fnName(root))
+		for _, s := range g.stmts {
+			fmt.Fprintf(b, "  %s\n", s)
+		}
+		fmt.Fprintf(b, "  call: %s(%s)\n", root.Name(), strings.Join(argExprs, ", "))
+		for _, n := range g.notes {
+			fmt.Fprintf(b, "  note: %s\n", n)
+		}
+		out, confirmed, ran := c.runReplayTest(pkg.PkgPath, pkg.Name, src)
+		fmt.Fprintf(b, "\n--- replay test (go test -overlay, real code) ---\n%s\n--- output ---\n%s\n", src, out)
+		if !ran {
+			f.Confirm = "replay-did-not-build"
+			fmt.Fprintf(b, "replay: the generated test did not build or run\n")
+			return
+		}
+		if confirmed {
+			f.Confirm = "confirmed"
+			fmt.Fprintf(b, "replay: CONFIRMED on the real code\n")
+			return
+		}
+		f.Confirm = "not-confirmed"
+		fmt.Fprintf(b, "replay: the model did not reproduce the failure on the real code\n")
+	}
 }
+
+func (g *goBuilder) testSource(root *ssa.Function, args []string, oracle string, o *Obligation) string {
+	var b strings.Builder
+	pkgName := g.pkg.Name()
+	callee := root.Name()
+	if recv := root.Signature.Recv(); recv != nil {
+		// method: first arg is the receiver
+		callee = "(" + args[0] + ")." + root.Name()
+		args = args[1:]
+	}
+	variadic := root.Signature.Variadic()
+	call := fmt.Sprintf("%s(%s)", callee, strings.Join(args, ", "))
+	if variadic && len(args) > 0 {
+		call = fmt.Sprintf("%s(%s...)", callee, strings.Join(args, ", "))
+	}
+	var body strings.Builder
+	for _, s := range g.stmts {
+		body.WriteString("\t" + s + "\n")
+	}
+	nres := root.Signature.Results().Len()
+	lhs := ""
+	if nres > 0 {
+		parts := make([]string, nres)
+		for i := range parts {
+			parts[i] = "_"
+		}
+		lhs = strings.Join(parts, ", ") + " = "
+	}
+	switch oracle {
+	case "nopanic":
+		body.WriteString("\tdefer func() {\n\t\tif r := recover(); r != nil {\n\t\t\tt.Fatalf(\"REPLAY-CONFIRMED: panic escaped: %v\", r)\n\t\t}\n\t}()\n")
+		body.WriteString("\t" + lhs + call + "\n")
+	case "frame":
+		g.imports["reflect"] = "reflect"
+		g.imports["fmt"] = "fmt"
+		// snapshot every backing array (to full length) and map built above
+		var names []string
+		for _, n := range g.arrays {
+			names = append(names, n)
+		}
+		for _, n := range g.maps {
+			names = append(names, n)
+		}
+		sort.Strings(names)
+		body.WriteString("\tsnap := func() string { return fmt.Sprintf(\"%#v\", []interface{}{" + strings.Join(names, ", ") + "}) }\n")
+		body.WriteString("\tbefore := snap()\n")
+		body.WriteString("\tfunc() {\n\t\tdefer func() { recover() }()\n\t\t" + lhs + call + "\n\t}()\n")
+		body.WriteString("\tif after := snap(); after != before {\n\t\tt.Fatalf(\"REPLAY-CONFIRMED: a pre-existing container was written:\\nbefore %s\\nafter  %s\", before, after)\n\t}\n\t_ = reflect.DeepEqual\n")
+	default:
+		body.WriteString(g.customOracle(oracle, root, args, call))
+	}
+	fmt.Fprintf(&b, "package %s\n\nimport (\n", pkgName)
+	var imps []string
+	for path, name := range g.imports {
+		imps = append(imps, fmt.Sprintf("\t%s %q\n", name, path))
+	}
+	sort.Strings(imps)
+	for _, i := range imps {
+		b.WriteString(i)
+	}
+	fmt.Fprintf(&b, ")\n\n// obligation: %s\nfunc TestGovcReplay(t *testing.T) {\n%s}\n", o.Name, body.String())
+	return b.String()
+}
+
+func (g *goBuilder) customOracle(oracle string, root *ssa.Function, args []string, call string) string {
+	if f, ok := customOracles[oracle]; ok {
+		return f(g, root, args, call)
+	}
+	return "\tt.Skip(\"no oracle\")\n"
+}
+
+var customOracles = map[string]func(g *goBuilder, root *ssa.Function, args []string, call string) string{}
+
+// runReplayTest injects the test into pkgPath with an overlay and runs it.
+func (c *CheckCtx) runReplayTest(pkgPath, pkgName, src string) (string, bool, bool) {
+	dir, err := os.MkdirTemp(c.scratch, "replay-")
+	if err != nil {
+		return err.Error(), false, false
+	}
+	defer os.RemoveAll(dir)
+	rel := strings.TrimPrefix(strings.TrimPrefix(pkgPath, modulePath), "/")
+	target := filepath.Join(c.eng.repo, rel, "zz_govc_replay_test.go")
+	testFile := filepath.Join(dir, "replay_test.go")
+	os.WriteFile(testFile, []byte(src), 0o644)
+	ov, _ := json.Marshal(map[string]any{"Replace": map[string]string{target: testFile}})
+	ovFile := filepath.Join(dir, "overlay.json")
+	os.WriteFile(ovFile, ov, 0o644)
+	ctx, cancel := context.WithTimeout(context.Background(), 120*time.Second)
+	defer cancel()
+	cmd := exec.CommandContext(ctx, "go", "test", "-tags", "verif", "-overlay", ovFile, "-vet=off", "-count=1", "-timeout", "60s", "-run", "^TestGovcReplay$", "./"+rel)
+	cmd.Dir = c.eng.repo
+	cmd.Env = goEnv()
+	var out bytes.Buffer
+	cmd.Stdout = &out
+	cmd.Stderr = &out
+	cmd.Run()
+	txt := out.String()
+	if len(txt) > 6000 {
+		txt = txt[:6000] + "\n...[truncated]"
+	}
+	confirmed := strings.Contains(txt, "REPLAY-CONFIRMED")
+	ran := strings.Contains(txt, "--- FAIL") || strings.Contains(txt, "\nok ") || strings.HasPrefix(txt, "ok ") || strings.Contains(txt, "PASS") || strings.Contains(txt, "panic:")
+	if strings.Contains(txt, "panic:") && !confirmed && strings.Contains(src, "panic escaped") {
+		confirmed = true
+	}
+	return txt, confirmed, ran
+}
+
+func (c *CheckCtx) scratchBase() string { return filepath.Dir(c.scratch) }
